@@ -141,6 +141,8 @@ type Kernel struct {
 	keyIDs    map[[2]uint64]uint64
 	ShmFiles  map[string]bool
 	Stats     map[string]int64
+	// SockOpHook is called at the start of every socket read/write/sendmsg/recvmsg (harness fault injection).
+	SockOpHook func(p *simrt.Proc, op string)
 }
 
 // K is the kernel of the current run.
@@ -290,6 +292,9 @@ func (s *Sock) mask() uint32 {
 
 func (k *Kernel) sockRead(g *simrt.G, d *fdesc, p []byte, wantOob bool) (n int, fds []int, err error) {
 	s := d.f.sock
+	if k.SockOpHook != nil {
+		k.SockOpHook(d.proc, "read")
+	}
 	for {
 		if k.fds[d.fd] != d || s.closed {
 			return 0, nil, unix.EBADF
@@ -371,6 +376,9 @@ func (k *Kernel) sockRead(g *simrt.G, d *fdesc, p []byte, wantOob bool) (n int, 
 
 func (k *Kernel) sockWrite(g *simrt.G, d *fdesc, p []byte, oobFds []int) (n int, err error) {
 	s := d.f.sock
+	if k.SockOpHook != nil {
+		k.SockOpHook(d.proc, "write")
+	}
 	total := 0
 	for {
 		if k.fds[d.fd] != d || s.closed {
@@ -563,6 +571,36 @@ func (k *Kernel) Dup(fd int, p *simrt.Proc) (int, error) {
 		return -1, unix.EBADF
 	}
 	return k.newFd(d.f, p), nil
+}
+
+// Shutdown shuts one or both directions of a simulated stream socket: blocked and later reads return 0,
+// writes fail with EPIPE, the peer reads end-of-file after draining and gets EPIPE on write.
+func Shutdown(fd int, how int) error {
+	simrt.Yield(simrt.KSyscall, "shutdown")
+	if K == nil || fd < FakeFdBase {
+		return unix.Shutdown(fd, how)
+	}
+	d := K.fds[fd]
+	if d == nil || d.f.sock == nil {
+		return unix.EBADF
+	}
+	s := d.f.sock
+	if how == unix.SHUT_RD || how == unix.SHUT_RDWR {
+		s.peerGone = true // reads: drain what is buffered, then end-of-file
+		s.rwait.wakeAll()
+	}
+	if how == unix.SHUT_WR || how == unix.SHUT_RDWR {
+		s.shutWr = true
+		s.wwait.wakeAll()
+		if p := s.peer; p != nil && !p.closed {
+			p.peerGone = true
+			p.rwait.wakeAll()
+			p.wwait.wakeAll()
+			p.edge()
+		}
+	}
+	s.edge()
+	return nil
 }
 
 func SetNonblock(fd int, nb bool) error {
